@@ -1057,6 +1057,8 @@ def alias_case(case):
         return run_
 
     attempt("field.method(out=other field)", field_sep)
+    attempt("field.method(out=the field itself)", field_alias(True))
+    attempt("field.apply_operator(out=the field itself)", field_alias(False))
     for bname in ("numpy", "numba", "scipy"):
         try:
             if opn not in get_backend(bname).get_registered_operators(grid):
